@@ -1,6 +1,7 @@
 package props
 
 import (
+	"strconv"
 	"sort"
 	"fmt"
 	"go/token"
@@ -179,7 +180,14 @@ func condAtom(v ssa.Value, truth bool) (string, bool) {
 					t = !t
 				}
 				if what := describeOperand(other); what != "" {
-					return "eq:" + what + ":" + cst.Value.ExactString(), t
+					kv := cst.Value.ExactString()
+					// canonical form of a single-bit test: (x & m) == m  <=>  (x & m) != 0 for a one-bit m
+					if i := strings.LastIndex(what, "&"); i >= 0 && what[i+1:] == kv && kv != "0" {
+						if m, err := strconv.ParseUint(kv, 10, 64); err == nil && m&(m-1) == 0 {
+							return "eq:" + what + ":0", !t
+						}
+					}
+					return "eq:" + what + ":" + kv, t
 				}
 			}
 		}
